@@ -355,10 +355,11 @@ def generate(seed, run, tier):
     return {"config": config, "events": events}
 
 
+# (module defining the trie, trie attribute, [(module, list attribute), ...])
 BUNDLED = {
-    "shortener": ("ural.is_shortened_url", ["SHORTENER_DOMAINS"], "SHORTENER_DOMAINS_TRIE"),
-    "youtube": ("ural.youtube", ["YOUTUBE_DOMAINS"], "YOUTUBE_DOMAINS_TRIE"),
-    "should_resolve": ("ural.should_resolve", ["SHORTENER_DOMAINS", "SHOULD_RESOLVE_DOMAINS"], "SHOULD_RESOLVE_TRIE"),
+    "shortener": ("ural.is_shortened_url", "SHORTENER_DOMAINS_TRIE", [("ural.is_shortened_url", "SHORTENER_DOMAINS")]),
+    "youtube": ("ural.youtube", "YOUTUBE_DOMAINS_TRIE", [("ural.youtube", "YOUTUBE_DOMAINS")]),
+    "should_resolve": ("ural.should_resolve", "SHOULD_RESOLVE_TRIE", [("ural.is_shortened_url", "SHORTENER_DOMAINS"), ("ural.should_resolve", "SHOULD_RESOLVE_DOMAINS")]),
 }
 BUNDLED_ORDER = ["shortener", "youtube", "should_resolve"]
 
@@ -366,11 +367,9 @@ BUNDLED_ORDER = ["shortener", "youtube", "should_resolve"]
 def bundled_list(which):
     import importlib
 
-    modname, names, _ = BUNDLED[which]
-    mod = importlib.import_module(modname)
     out = []
-    for n in names:
-        out.extend(getattr(mod, n))
+    for modname, attr in BUNDLED[which][2]:
+        out.extend(getattr(importlib.import_module(modname), attr))
     return out
 
 
@@ -754,7 +753,7 @@ class Run(object):
         elif op == "check_module_trie":
             import importlib
 
-            modname, _, attr = BUNDLED[ev["which"]]
+            modname, attr, _ = BUNDLED[ev["which"]]
             trie = getattr(importlib.import_module(modname), attr)
             self.sweep_trie_against(trie, bundled_list(ev["which"]), op)
             stats.probe("module_trie_checked")
